@@ -144,7 +144,7 @@ theorem seqLoop_spec (h : Params) : ∀ (fuel : Nat) (row : Row) (input pre : By
                 rw [hnew] at hs hstep
                 obtain ⟨news, tail, h1, h2, h3, h4⟩ := ih (Row.new h) rest [] [] [] _ res (by omega)
                   (Reach.nil h) (by simp [vis]) (by simp) (by simpa using hs)
-                refine ⟨{ start := (cur.head?.map (·.address)).getD 0, «end» := row'.address,
+                refine ⟨{ start := (cur.head?.map (·.address)).getD row'.address, «end» := row'.address,
                           instructions := pre ++ c } :: news, tail, by rw [h1]; simp, ?_, h3, ?_⟩
                 · rw [hstep]
                   simp only [List.flatMap_cons]
